@@ -24,7 +24,9 @@ ALPHA17 = ['a', 'b', 'x1', 'class', 'a b', '1x', 'a.b', '', 'get2', 'c',
            '\u00e9t\u00e9', 'n\u00f1', 'None', 'd', 'e', 'f_g', 'handles', 'maps',
            '__meta__', '__', '___', '__icon.png__', '_x', '_',
            # identifiers that normalisation (NFC / NFKC) would merge
-           'cafe\u0301', 'caf\u00e9', '\ufb01le', 'file', '\u00aa', 'a']
+           'cafe\u0301', 'caf\u00e9', '\ufb01le', 'file', '\u00aa', 'a',
+           # names no Python identifier or type name can carry
+           'nul\x00name', '\x00']
 SPLIT = '/'
 
 
